@@ -283,17 +283,17 @@ blob, one of `X0`, or a value blob this transaction wrote; no blob the write set
 blobs of the updated nodes and the blobs of the removed nodes were deleted, the removed nodes' handles are gone with
 them, the obsolete value blobs were deleted. -/
 theorem commit_ok_cleanup_complete (pre : Pre s0 w fresh0) (pre2 : Pre2 s0 w fresh0) (X0 : List UUID) (h0 : BI X0 s0)
-    (tid : Tid) (n : Nat) (r2 : Run)
-    (hok : commit w n { s := s0, tid := tid, fault := none, fresh := fresh0 } = (.ok, r2)) :
+    {cs0 : Step} (tid : Tid) (n : Nat) (r2 : Run)
+    (hok : commit w n { s := s0, tid := tid, fault := none, fresh := fresh0, cs := cs0 } = (.ok, r2)) :
     BI (X0 ++ w.values) r2.s ∧ (∀ b ∈ w.obsoleteValues, r2.s.blob b = false) ∧
       (w.hasTracked = true → ∀ i ∈ w.removed.map (·.1), r2.s.reg i = none) := by
-  have hjb : JB s0 w fresh0 (X0 ++ w.values) { s := s0, tid := tid, fault := none, fresh := fresh0 } :=
+  have hjb : JB s0 w fresh0 (X0 ++ w.values) { s := s0, tid := tid, fault := none, fresh := fresh0, cs := cs0 } :=
     ⟨⟨⟨SInv.init s0 w fresh0 pre, fun _ hp => hp⟩, rfl, rfl⟩,
       h0.mono (fun b hb => List.mem_append_left _ (List.mem_append_left _ hb))⟩
   have h1 := bi_phase1 pre pre2 (Y := X0 ++ w.values) (fun b hb => List.mem_append_right _ hb) n _ hjb
-  have hf1 := h_phase1 (f0 := none) w n { s := s0, tid := tid, fault := none, fresh := fresh0 } ⟨rfl, rfl, rfl⟩
+  have hf1 := h_phase1 (f0 := none) w n { s := s0, tid := tid, fault := none, fresh := fresh0, cs := cs0 } ⟨rfl, rfl, rfl⟩
   unfold commit at hok
-  cases hp : phase1 w n { s := s0, tid := tid, fault := none, fresh := fresh0 } with
+  cases hp : phase1 w n { s := s0, tid := tid, fault := none, fresh := fresh0, cs := cs0 } with
   | error r1 =>
     rw [hp] at hok
     simp only at hok
@@ -318,8 +318,8 @@ theorem commit_ok_cleanup_complete (pre : Pre s0 w fresh0) (pre2 : Pre2 s0 w fre
       exact e ▸ h2.1.2 g.lid (List.mem_map_of_mem (f := (·.lid)) hg)
 
 theorem commit_ok_no_orphans_gen (pre : Pre s0 w fresh0) (pre2 : Pre2 s0 w fresh0) (X0 : List UUID) (h0 : BI X0 s0)
-    (tid : Tid) (n : Nat) (r2 : Run)
-    (hok : commit w n { s := s0, tid := tid, fault := none, fresh := fresh0 } = (.ok, r2)) :
+    {cs0 : Step} (tid : Tid) (n : Nat) (r2 : Run)
+    (hok : commit w n { s := s0, tid := tid, fault := none, fresh := fresh0, cs := cs0 } = (.ok, r2)) :
     BI (X0 ++ w.values) r2.s ∧ ∀ b ∈ w.obsoleteValues, r2.s.blob b = false :=
   ⟨(commit_ok_cleanup_complete pre pre2 X0 h0 tid n r2 hok).1, (commit_ok_cleanup_complete pre pre2 X0 h0 tid n r2 hok).2.1⟩
 
@@ -330,8 +330,8 @@ def NoOrphanV (V : List UUID) (s : State) : Prop :=
 /-- **C11, success half, with separate-segment value blobs**: the live value blobs after the commit are the old
 ones and the ones this transaction wrote, minus the ones it made obsolete. -/
 theorem commit_ok_no_orphans_values (pre : Pre s0 w fresh0) (pre2 : Pre2 s0 w fresh0) (V : List UUID)
-    (h0 : NoOrphanV V s0) (tid : Tid) (n : Nat) (r2 : Run)
-    (hok : commit w n { s := s0, tid := tid, fault := none, fresh := fresh0 } = (.ok, r2)) :
+    (h0 : NoOrphanV V s0) {cs0 : Step} (tid : Tid) (n : Nat) (r2 : Run)
+    (hok : commit w n { s := s0, tid := tid, fault := none, fresh := fresh0, cs := cs0 } = (.ok, r2)) :
     NoOrphanV ((V ++ w.values).filter (fun b => !w.obsoleteValues.contains b)) r2.s := by
   obtain ⟨h1, h2⟩ := commit_ok_no_orphans_gen pre pre2 V h0 tid n r2 hok
   intro b hb
@@ -345,8 +345,8 @@ theorem commit_ok_no_orphans_values (pre : Pre s0 w fresh0) (pre2 : Pre2 s0 w fr
 /-- **C11, success half: a successful fault-free commit leaves no orphaned blob** (write sets without
 separate-segment value blobs). -/
 theorem commit_ok_no_orphans (pre : Pre s0 w fresh0) (pre2 : Pre2 s0 w fresh0) (hv : w.values = [])
-    (h0 : NoOrphan s0) (tid : Tid) (n : Nat) (r2 : Run)
-    (hok : commit w n { s := s0, tid := tid, fault := none, fresh := fresh0 } = (.ok, r2)) :
+    (h0 : NoOrphan s0) {cs0 : Step} (tid : Tid) (n : Nat) (r2 : Run)
+    (hok : commit w n { s := s0, tid := tid, fault := none, fresh := fresh0, cs := cs0 } = (.ok, r2)) :
     NoOrphan r2.s := by
   have := (commit_ok_no_orphans_gen pre pre2 [] (BI.nil.mpr h0) tid n r2 hok).1
   rw [hv] at this
